@@ -338,7 +338,12 @@ class _FileModifyProxy:
             # Do not create any directories, only report what would be copied.
             if os.path.exists(dst):
                 raise FileExistsError(errno.EEXIST, os.strerror(errno.EEXIST), dst)
-            for root, _, filenames in os.walk(src):
+            ignore = kwargs.get("ignore")
+            for root, dirnames, filenames in os.walk(src):
+                if ignore is not None:
+                    ignored = set(ignore(root, dirnames + filenames))
+                    dirnames[:] = [dn for dn in dirnames if dn not in ignored]
+                    filenames = [fn for fn in filenames if fn not in ignored]
                 for fn in filenames:
                     self.copy(
                         os.path.join(root, fn),
@@ -496,6 +501,23 @@ class DocSync:
                     logger.more("Skipped keys: {}".format(", ".join(self.skipped_keys)))
 
 
+def _ignore_excluded(exclude, keep=None):
+    """Return an ignore function for copytree that skips all excluded file names.
+
+    The file at path ``keep`` is never skipped.
+    """
+
+    def ignore(path, names):
+        return {
+            name
+            for name in names
+            if any(re.match(p, name) for p in exclude)
+            and os.path.join(path, name) != keep
+        }
+
+    return ignore
+
+
 def _sync_job_workspaces(
     src, dst, strategy, exclude, copy, copytree, recursive=True, deep=False, subdir=""
 ):
@@ -516,7 +538,10 @@ def _sync_job_workspaces(
         if os.path.isfile(fn_src):
             copy(fn_src, fn_dst)
         elif recursive:
-            copytree(fn_src, fn_dst)
+            if exclude:
+                copytree(fn_src, fn_dst, ignore=_ignore_excluded(exclude))
+            else:
+                copytree(fn_src, fn_dst)
         else:
             logger.warning(f"Skip directory '{fn_src}'.")
     for fn in diff.diff_files:
@@ -884,7 +909,17 @@ def sync_projects(
     def _clone_or_sync(src_job):
         """Clone a job if it does not exist, or sync if it exists."""
         try:
-            destination.clone(src_job, copytree=proxy.copytree)
+            if exclude:
+                # Excluded files are not copied into new jobs either.
+                patterns = exclude if isinstance(exclude, list) else [exclude]
+                keep = src_job.fn(src_job.FN_STATE_POINT)
+
+                def copytree(src, dst):
+                    proxy.copytree(src, dst, ignore=_ignore_excluded(patterns, keep))
+
+            else:
+                copytree = proxy.copytree
+            destination.clone(src_job, copytree=copytree)
             logger.more(f"Cloned job '{src_job}'.")
             return 1
         except DestinationExistsError:
